@@ -293,3 +293,9 @@ def build(sess):
                         'no port event, err and port unchanged, documented failure value, no exception; record_error is '
                         'first-wins; no other method stores to self.err (AST frame check + store hook); connect/disconnect never '
                         'replace a recorded message.')
+
+
+def fallback(sess):
+    r = native('n_serial', 'search_latch', {})
+    r['what'] = 'n_serial.search_latch'
+    return [r]
